@@ -32,6 +32,8 @@ def lockstep_job(job):
         args = []
         if sl.get('submits'):
             args += ['--submits', str(sl['submits'])]
+        if sl.get('faults'):
+            args += ['--faults', str(sl['faults'])]
         names = []
         if 'peers' in sl:
             for zn, cfg in sl['peers']:
@@ -48,9 +50,9 @@ def lockstep_job(job):
                 peers.append(lockstep.Peer(cfg, exe, args))
                 zs.append(desc.for_family(z0, cfg))
         ls = lockstep.LockStep(peers, zs, [c.split('/')[-1] for c in sl['cfgs']] if 'peers' in sl else sl['cfgs'], [tuple(o.split(':')) if ':' in o else (o, '0') for o in sl['ops']],
-                               qbound=sl.get('qbound', 2), submits=sl.get('submits', 0), guards=sl.get('guards', -1),
+                               qbound=sl.get('qbound', 2), submits=sl.get('submits', 0) + sl.get('faults', 0), guards=sl.get('guards', -1),
                                n_menu=len(z0.menu), max_exec=sl.get('max_exec', 200000), deadline=sl.get('deadline'),
-                               compare_ids=sl.get('compare_ids', False), act_in_trace=sl.get('act_in_trace', False), labels=list(sl['cfgs']))
+                               compare_ids=sl.get('compare_ids', False), act_in_trace=sl.get('act_in_trace', False), labels=list(sl['cfgs']), faults=bool(sl.get('faults')))
         ls.ops = [(o, int(e)) for o, e in ls.ops]
         ls.run()
         out['stats'] = dict(ls.stats)
